@@ -536,6 +536,26 @@ def r11_no_scan(c, facts, rule='C12.R11'):
             # next, |_| true)`: a resynchronising skip re-reads what the failed statement had read); the combinators `repeat`
             # and `intersperse` loop over *parsers* handed to them, which pass the memo points
             single = d.split('::')[-1] in ('parse_token', 'parse_token_with') and fn.qname.split('::{closure')[0] not in ('oal_model::grammar::repeat', 'oal_model::grammar::intersperse')
+            if single and not raw:
+                # a token that is consumed and attached (`ns.push(n0)` in an inlined `intersperse`) is the grammar's own
+                # repetition - one token per round, each read once; the clause is about a token skipped and dropped
+                import mirflow as _MF
+                _, fcalls = _MF.forward_uses(fn, t['dest']['l']) if isinstance(t.get('dest'), dict) and 'l' in t['dest'] else (set(), [])
+                seen, work = set(), [x for x in fcalls]
+                kept = False
+                while work and len(seen) < 60:
+                    nm, ct, cb, ai = work.pop()
+                    if id(ct) in seen:
+                        continue
+                    seen.add(id(ct))
+                    short = P.strip(nm).split('::')[-1]
+                    if short in ('push', 'compose', 'compose_node', 'extend', 'insert'):
+                        kept = True
+                        break
+                    if short in ('branch', 'from_residual', 'into', 'from') and isinstance(ct.get('dest'), dict) and 'l' in ct['dest']:
+                        work += _MF.forward_uses(fn, ct['dest']['l'])[1]
+                if kept:
+                    continue
             if not (raw or single):
                 continue
             n += 1
